@@ -87,13 +87,17 @@ class HeaderExtensionsMap:
             elif x_id == self.__ids.rtp_stream_id:
                 values.rtp_stream_id = x_value.decode("ascii")
             elif x_id == self.__ids.abs_send_time:
+                check_header_extension_length(x_value, 3)
                 values.abs_send_time = unpack("!L", b"\00" + x_value)[0]
             elif x_id == self.__ids.transmission_offset:
+                check_header_extension_length(x_value, 3)
                 values.transmission_offset = unpack("!l", x_value + b"\00")[0] >> 8
             elif x_id == self.__ids.audio_level:
+                check_header_extension_length(x_value, 1)
                 vad_level = unpack("!B", x_value)[0]
                 values.audio_level = (vad_level & 0x80 == 0x80, vad_level & 0x7F)
             elif x_id == self.__ids.transport_sequence_number:
+                check_header_extension_length(x_value, 2)
                 values.transport_sequence_number = unpack("!H", x_value)[0]
         return values
 
@@ -150,6 +154,13 @@ class HeaderExtensionsMap:
         return pack_header_extensions(extensions)
 
 
+def check_header_extension_length(value: bytes, length: int) -> None:
+    if len(value) != length:
+        raise ValueError(
+            f"RTP header extension has an invalid length of {len(value)} bytes"
+        )
+
+
 def clamp_packets_lost(count: int) -> int:
     return max(PACKETS_LOST_MIN, min(count, PACKETS_LOST_MAX))
 
@@ -203,6 +214,9 @@ def unpack_remb_fci(data: bytes) -> tuple[int, list[int]]:
     exponent = (data[5] & 0xFC) >> 2
     mantissa = ((data[5] & 0x03) << 16) | (data[6] << 8) | data[7]
     bitrate = mantissa << exponent
+
+    if len(data) < 8 + 4 * data[4]:
+        raise ValueError("REMB SSRC list is truncated")
 
     pos = 8
     ssrcs = []
